@@ -10,6 +10,31 @@ import (
 
 func doDump(p *Prog, what string) {
 	switch {
+	case strings.HasPrefix(what, "mods:"):
+		h := newHeap(p)
+		for _, name := range strings.Split(strings.TrimPrefix(what, "mods:"), ",") {
+			f := p.Fn(name)
+			if f == nil {
+				fmt.Println("no such function", name)
+				continue
+			}
+			fmt.Printf("== %s\n", name)
+			for _, m := range h.ModsOf(f) {
+				fmt.Printf("  %-40s %-12s in %s at %s via [%s] %s\n", m.Loc, m.Kind, m.Fn, p.pos(m.Pos), m.Via, m.Desc)
+			}
+			for i, r := range h.sums[f].rets {
+				fmt.Printf("  ret%d = %v\n", i, r.sorted())
+			}
+			for l, ts := range h.sums[f].pts {
+				fmt.Printf("  pts %s -> %v\n", l, ts.sorted())
+			}
+			for e := range h.sums[f].copies {
+				fmt.Printf("  copy %s <= %s\n", e.dst, e.src)
+			}
+		}
+		fmt.Println("unmodelled:", h.Unmodelled)
+	case what == "externals":
+		dumpExternals(p)
 	case what == "funcs":
 		for _, f := range p.Funcs {
 			fmt.Printf("%-50s %s blocks=%d\n", funcName(f), p.pos(f.Pos()), len(f.Blocks))
@@ -77,3 +102,22 @@ func init() {
 }
 
 var dumpWho func(p *Prog, target string)
+
+func dumpExternals(p *Prog) {
+	cnt := map[string]int{}
+	for _, f := range p.Funcs {
+		eachInstr(f, func(ins ssa.Instruction) {
+			if c, ok := ins.(ssa.CallInstruction); ok {
+				for _, g := range p.cg.Externals(c) {
+					cnt[fullName(g)+" :: "+g.Signature.String()]++
+				}
+				if c.Common().IsInvoke() && len(p.cg.Callees(c)) == 0 {
+					cnt["invoke "+c.Common().Value.Type().String()+"."+c.Common().Method.Name()]++
+				}
+			}
+		})
+	}
+	for k, v := range cnt {
+		fmt.Printf("%3d %s\n", v, k)
+	}
+}
